@@ -112,6 +112,9 @@ class WARCRecorder(object):
 
     def _start_new_warc_file(self, meta=False):
         '''Create and set as current WARC file.'''
+        previous_filename = self._warc_filename
+        previous_warcinfo_record = self._warcinfo_record
+
         if self._params.max_size and not meta and self._params.appending:
             while True:
                 self._warc_filename = self._generate_warc_filename()
@@ -126,12 +129,22 @@ class WARCRecorder(object):
 
         _logger.debug('WARC file at {0}', self._warc_filename)
 
-        if not self._params.appending:
-            wpull.util.truncate_file(self._warc_filename)
+        try:
+            if not self._params.appending:
+                wpull.util.truncate_file(self._warc_filename)
 
-        self._warcinfo_record = WARCRecord()
-        self._populate_warcinfo(self._params.extra_fields)
-        self.write_record(self._warcinfo_record)
+            self._warcinfo_record = WARCRecord()
+            self._populate_warcinfo(self._params.extra_fields)
+            self.write_record(self._warcinfo_record)
+        except (OSError, IOError):
+            if previous_filename:
+                # The new file did not get its warcinfo record: keep
+                # writing to the previous file, whose warcinfo record is
+                # the one the following records will point at.
+                self._warc_filename = previous_filename
+                self._warcinfo_record = previous_warcinfo_record
+
+            raise
 
     def _generate_warc_filename(self, meta=False):
         '''Return a suitable WARC filename.'''
